@@ -1,7 +1,15 @@
 /-
-  Model of pgdump/jsonb.go:22-154 (ParseJSONB, parseJSONBObject, parseJSONBArray, totalLen,
+  Model of pgdump/jsonb.go (ParseJSONB, parseJSONBObject, parseJSONBArray, totalLen,
   entryOffLen, endOffset, decodeJEntry) and of the OidNumeric / OidJSONB branches of
-  types.go:decodeScalar, as repaired by fixes/numjson/04..08.
+  types.go:decodeScalar, as repaired by fixes/numjson/04..08 and 10.
+
+  Fix 10: no constant cap on the number of children (the count is bounded by the input: the JEntry
+  words must lie inside the data), and the end offsets of all entries are computed in ONE forward
+  pass (`endsFrom`), which is also fix 08's monotonicity check.  The loops walk the slices
+  `entries[i:]` / `ends[i:]` as lists (an exhausted list = Go's index-out-of-range panic), so the
+  model itself is linear in the number of entries.  `endOffset` / `entryOffLen` / `totalLen` are
+  still in the source (the repository's tests call them) but ParseJSONB no longer does;
+  Proofs/Jsonb.lean shows they compute the same offsets.
 
   The mutual recursion ParseJSONB → decodeJEntry → ParseJSONB is by fuel; `parseJSONB` supplies
   `len(data) + 1`, which is enough because a child slice starts at or after `dataStart ≥ 8`
@@ -74,25 +82,32 @@ def totalLen (es : List Nat) : Nat := if es.length == 0 then 0 else endOffset es
 
 /-! ### decodeJEntry -/
 
-/-- jsonb.go:decodeJEntry; `rec` is ParseJSONB with the remaining fuel -/
-def decodeJEntry (rec : Bytes → M JV) (data : Bytes) (off : Nat) (length : Int) (je : Nat) : M JV := do
+/-- Go: `data[lo:hi]`, `dlen` being `len(data)` — the same as `slice` of Basic/Bytes (Proofs/Jsonb.lean:
+`sliceL_eq`), written drop-then-take so that evaluating it does not copy the `lo` bytes in front, and with
+the length handed in (`len` is O(1) on a Go slice but walks the whole list in the model; the compiled
+model is run on containers with tens of thousands of children) -/
+def sliceL (data : Bytes) (dlen lo hi : Nat) : M Bytes :=
+  if hi > dlen ∨ lo > hi then throw .slice else pure ((data.drop lo).take (hi - lo))
+
+/-- jsonb.go:decodeJEntry with `dlen` = `len(data)` handed in; `rec` is ParseJSONB with the remaining fuel -/
+def decodeJEntryN (rec : Bytes → M JV) (data : Bytes) (dlen off : Nat) (length : Int) (je : Nat) : M JV := do
   let ty := je &&& 0x70000000
   if ty == 0x00000000 then
-    if length ≥ 0 ∧ off + length.toNat ≤ data.length then
-      return .str (← slice data off (off + length.toNat))
+    if length ≥ 0 ∧ off + length.toNat ≤ dlen then
+      return .str (← sliceL data dlen off (off + length.toNat))
     return .nil
   else if ty == 0x10000000 then
     let aligned := align4 off
     let pad := aligned - off
-    if (pad : Int) < length ∧ aligned + length.toNat - pad ≤ data.length then
-      let s ← slice data aligned (aligned + length.toNat - pad)
+    if (pad : Int) < length ∧ aligned + length.toNat - pad ≤ dlen then
+      let s ← sliceL data dlen aligned (aligned + length.toNat - pad)
       return JV.ofNum (← decodeJNumeric s)
     return .nil
   else if ty == 0x50000000 then
     let aligned := align4 off
     let pad := aligned - off
-    if (pad : Int) < length ∧ aligned + length.toNat - pad ≤ data.length then
-      let s ← slice data aligned (aligned + length.toNat - pad)
+    if (pad : Int) < length ∧ aligned + length.toNat - pad ≤ dlen then
+      let s ← sliceL data dlen aligned (aligned + length.toNat - pad)
       rec s
     else return .nil
   else if ty == 0x40000000 then return .nil
@@ -100,24 +115,33 @@ def decodeJEntry (rec : Bytes → M JV) (data : Bytes) (off : Nat) (length : Int
   else if ty == 0x30000000 then return .bool true
   else return .nil
 
+/-- jsonb.go:decodeJEntry -/
+def decodeJEntry (rec : Bytes → M JV) (data : Bytes) (off : Nat) (length : Int) (je : Nat) : M JV :=
+  decodeJEntryN rec data data.length off length je
+
 /-! ### containers -/
 
-/-- `for i := range entries { entries[i] = u32(data, 4+i*4) }`, `n` iterations left -/
-def readEntries (data : Bytes) : Nat → Nat → M (List Nat)
+/-- `for i := range entries { entries[i] = u32(data, 4+i*4) }`: `n` iterations left, `d` = `data[4+i*4:]`
+(`u32` panics exactly when fewer than 4 bytes are left; tested as "the slice after 3 bytes is empty"
+so that the test does not walk the whole remaining input) -/
+def readEntries : Nat → Bytes → M (List Nat)
   | 0, _ => pure []
-  | n+1, i => do
-    let e ← uN 4 data (4 + i * 4)
-    let rest ← readEntries data n (i + 1)
-    pure (e :: rest)
+  | n+1, d =>
+    if (d.drop 3).isEmpty then throw .index
+    else do
+      let rest ← readEntries n (d.drop 4)
+      pure (rd 4 d :: rest)
 
-/-- the monotonicity check of fix 08: running end offset, `none` = refuse -/
-def monotoneFrom (end_ : Nat) : List Nat → Bool
-  | [] => true
+/-- the forward pass of ParseJSONB (fix 10) over `entries[i:]`, `end_` = end offset of entry i-1:
+`ends[i] = v` where HAS_OFF is set, `ends[i-1] + v` elsewhere; `none` = refuse, the monotonicity
+check of fix 08 (a HAS_OFF end offset below the running end) -/
+def endsFrom (end_ : Nat) : List Nat → Option (List Nat)
+  | [] => some []
   | je :: rest =>
     let v := jeOffLen je
-    if !jeHasOff je then monotoneFrom (end_ + v) rest
-    else if v < end_ then false
-    else monotoneFrom v rest
+    if !jeHasOff je then (endsFrom (end_ + v) rest).map ((end_ + v) :: ·)
+    else if v < end_ then none
+    else (endsFrom v rest).map (v :: ·)
 
 /-- `entries[i]` -/
 def getEntry (es : List Nat) (i : Nat) : M Nat :=
@@ -125,31 +149,50 @@ def getEntry (es : List Nat) (i : Nat) : M Nat :=
   | some e => pure e
   | none => throw .index
 
-/-- jsonb.go:parseJSONBArray loop, `n` iterations left, at index `i` -/
-def parseArrayLoop (rec : Bytes → M JV) (data : Bytes) (entries : List Nat) (dataStart : Nat) :
-    Nat → Nat → M (List JV)
-  | 0, _ => pure []
-  | n+1, i => do
-    let (off, len) ← entryOffLen entries i 0
-    let je ← getEntry entries i
-    let v ← decodeJEntry rec data (dataStart + off) len je
-    let rest ← parseArrayLoop rec data entries dataStart n (i + 1)
+/-- `xs[n:]` of a `[]uint32` / `[]int` -/
+def dropM (xs : List Nat) (n : Nat) : M (List Nat) :=
+  if n > xs.length then throw .slice else pure (xs.drop n)
+
+/-- jsonb.go:parseJSONBArray loop: `n` iterations left, `off` = end offset of the previous entry
+(`ends[i-1]`, 0 for the first), `es` / `ends` = `entries[i:]` / `ends[i:]`; `dlen` = `len(data)` -/
+def parseArrayLoop (rec : Bytes → M JV) (data : Bytes) (dlen dataStart : Nat) :
+    Nat → Nat → List Nat → List Nat → M (List JV)
+  | 0, _, _, _ => pure []
+  | n+1, off, je :: es, e :: ends => do
+    let v ← decodeJEntryN rec data dlen (dataStart + off) ((e : Int) - off) je
+    let rest ← parseArrayLoop rec data dlen dataStart n e es ends
     pure (v :: rest)
+  | _+1, _, _, _ => throw .index
+
+/-- the key of a pair: `data[dataStart+kOff : dataStart+kOff+kLen]` if that lies in the data, else "" -/
+def objKeyN (data : Bytes) (dlen dataStart kOff : Nat) (kLen : Int) : M Bytes :=
+  if kLen ≥ 0 ∧ dataStart + kOff + kLen.toNat ≤ dlen then
+    sliceL data dlen (dataStart + kOff) (dataStart + kOff + kLen.toNat)
+  else pure []
+
+def objKey (data : Bytes) (dataStart kOff : Nat) (kLen : Int) : M Bytes :=
+  objKeyN data data.length dataStart kOff kLen
 
 /-- jsonb.go:parseJSONBObject loop: pairs in iteration order (later equal keys overwrite earlier
-ones when the map is built, see `buildMap`) -/
-def parseObjectLoop (rec : Bytes → M JV) (data : Bytes) (entries : List Nat) (dataStart count : Nat) :
-    Nat → Nat → M (List (Bytes × JV))
-  | 0, _ => pure []
-  | n+1, i => do
-    let (kOff, kLen) ← entryOffLen entries i 0
-    let key ← (if kLen ≥ 0 ∧ dataStart + kOff + kLen.toNat ≤ data.length then
-        slice data (dataStart + kOff) (dataStart + kOff + kLen.toNat) else pure [] : M Bytes)
-    let (vOff, vLen) ← entryOffLen entries (count + i) 0
-    let je ← getEntry entries (count + i)
-    let v ← decodeJEntry rec data (dataStart + vOff) vLen je
-    let rest ← parseObjectLoop rec data entries dataStart count n (i + 1)
+ones when the map is built, see `buildMap`); `n` iterations left, `kOff` / `vOff` = end offsets of the
+previous key / value entry, `kEnds` = `ends[i:]`, `vals` / `valEnds` = `vals[i:]` / `valEnds[i:]` -/
+def parseObjectLoop (rec : Bytes → M JV) (data : Bytes) (dlen dataStart : Nat) :
+    Nat → Nat → Nat → List Nat → List Nat → List Nat → M (List (Bytes × JV))
+  | 0, _, _, _, _, _ => pure []
+  | n+1, kOff, vOff, ke :: kEnds, je :: vals, ve :: valEnds => do
+    let key ← objKeyN data dlen dataStart kOff ((ke : Int) - kOff)
+    let v ← decodeJEntryN rec data dlen (dataStart + vOff) ((ve : Int) - vOff) je
+    let rest ← parseObjectLoop rec data dlen dataStart n ke ve kEnds vals valEnds
     pure ((key, v) :: rest)
+  | _+1, _, _, _, _, _ => throw .index
+
+/-- jsonb.go:parseJSONBObject -/
+def parseObject (rec : Bytes → M JV) (data : Bytes) (dlen : Nat) (entries ends : List Nat) (dataStart count : Nat) :
+    M (List (Bytes × JV)) := do
+  let vals ← dropM entries count
+  let valEnds ← dropM ends count
+  let vOff ← getEntry ends (count - 1)
+  parseObjectLoop rec data dlen dataStart count 0 vOff ends vals valEnds
 
 def buildMap (kvs : List (Bytes × JV)) : List (Bytes × JV) :=
   kvs.foldl (fun m kv => jvInsert m kv.1 kv.2) []
@@ -157,28 +200,31 @@ def buildMap (kvs : List (Bytes × JV)) : List (Bytes × JV) :=
 /-- the body of jsonb.go:ParseJSONB; `rec` is ParseJSONB itself (with the remaining fuel), reached
 through decodeJEntry for container children -/
 def parseContainer (rec : Bytes → M JV) (data : Bytes) : M JV := do
-  if data.length < 4 then return .nil
+  let dlen := data.length        -- `len(data)`, computed once (see `sliceL`)
+  if dlen < 4 then return .nil
   let header ← uN 4 data 0
   let count := header &&& 0x0FFFFFFF
   let isObj := header &&& 0x20000000 != 0
   let isArr := header &&& 0x40000000 != 0
-  if (!isObj && !isArr) || count > 10000 then return .nil
+  if !isObj && !isArr then return .nil
   if count == 0 then return (if isObj then .obj [] else .arr [])
   let numEntries := if isObj then count * 2 else count
-  if 4 + numEntries * 4 > data.length then return .nil
-  let entries ← readEntries data numEntries 0
+  if 4 + numEntries * 4 > dlen then return .nil
+  let entries ← readEntries numEntries (← sliceFrom data 4)
   let dataStart := 4 + numEntries * 4
-  if !monotoneFrom 0 entries then return .nil
-  if isObj then
-    let kvs ← parseObjectLoop rec data entries dataStart count count 0
-    return .obj (buildMap kvs)
-  else
-    let xs ← parseArrayLoop rec data entries dataStart count 0
-    if header &&& 0x10000000 != 0 then
-      match xs with
-      | [x] => return x
-      | _ => return .arr xs
-    return .arr xs
+  match endsFrom 0 entries with
+  | none => return .nil
+  | some ends =>
+    if isObj then
+      let kvs ← parseObject rec data dlen entries ends dataStart count
+      return .obj (buildMap kvs)
+    else
+      let xs ← parseArrayLoop rec data dlen dataStart count 0 entries ends
+      if header &&& 0x10000000 != 0 then
+        match xs with
+        | [x] => return x
+        | _ => return .arr xs
+      return .arr xs
 
 /-- jsonb.go:ParseJSONB with explicit fuel for the recursion through decodeJEntry -/
 def parseJSONBFuel : Nat → Bytes → M JV
